@@ -9,6 +9,7 @@ open Pcore.Lat
 #print axioms C04_ptype_of_family
 #print axioms C04_generalize_partial
 #print axioms C04_accepts_sound_partial
+#print axioms C04_accepts_sound
 #print axioms C04_common_unit
 #print axioms C04_common_accepts_left
 #print axioms C04_common_tail
